@@ -234,6 +234,96 @@ def _is_default(sec):
     return sec in (["VERS", "WRAP", "DLM"], ["STRT", "STOP", "STEP", "NULL"], [])
 
 
+def pool_texts(run):
+    """texts with diverse header-line shapes (special forms of the header grammar in ~W, ~C, ~P) + the example corpus"""
+    from . import c04
+    texts = []
+    for n in range(run.budget(60, 400)):
+        rows = []
+        for sec, title in (("Well", "~Well"), ("Curves", "~Curve"), ("Parameter", "~Params")):
+            rows.append(title)
+            if sec == "Well":
+                rows += ["STRT.M 1.0 : s", "STOP.M 2.0 : s", "STEP.M 1.0 : s", "NULL. -999.25 : n"]
+            if sec == "Curves":
+                rows.append("DEPT.M : d")
+            for _ in range(run.rng.randint(1, 4)):
+                r = run.rng.random()
+                if r < 0.5:
+                    f, p = c04.gen_case(run.rng, sec)
+                    p = c04.fix_pads(f, p, sec, run.rng)
+                    line = c04.layout(f, p).strip()
+                elif r < 0.8:
+                    line = c04.special_structured(fw.Run(run.prop, run.tier, 0), run.rng, run.rng.randrange(1000))[1].strip()
+                else:
+                    line = run.rng.choice(["Cond..MS/M : x", "GR.GAPI : gamma..ray", "RES. .OHMM : deep.. res", "TIME . 12:30:15 : t", "A.B.C.D : e",
+                                           "X . : y..", "MUD MIX : ratio 3:1"])
+                if line and not line.startswith(("~", "#")):
+                    rows.append(line)
+        ncur = sum(1 for i, l in enumerate(rows) if rows.index("~Curve") < i < rows.index("~Params"))
+        text = "~Version\nVERS. 2.0 : v\nWRAP. NO : w\n" + "\n".join(rows) + "\n~ASCII\n" + " ".join(str(j + 1) for j in range(ncur)) + "\n"
+        texts.append(text)
+    root = os.path.join(fw.REPO, "tests", "examples")
+    for b, _, files in sorted(os.walk(root)):
+        for fn in sorted(files):
+            if fn.lower().endswith(".las"):
+                try:
+                    t = open(os.path.join(b, fn), encoding="utf-8").read()
+                except Exception:
+                    continue
+                if len(t) < 20000 and len(t.splitlines()) > 1:
+                    texts.append(t)
+    return texts
+
+
+def worker_main(pool_path, seed):
+    """fresh interpreter: read every text of the pool in the order given by `seed`, print {index: digest}"""
+    import json
+    import logging
+    import random
+    import sys
+    import warnings
+    sys.path.insert(0, fw.REPO)
+    logging.disable(logging.CRITICAL)
+    warnings.simplefilter("ignore")
+    import lasio
+    texts = json.load(open(pool_path))
+    order = list(range(len(texts)))
+    random.Random(seed).shuffle(order)
+    out = {}
+    for i in order:
+        try:
+            out[i] = fw.h(canon(lasio.read(texts[i], ignore_header_errors=True)))
+        except Exception as e:
+            out[i] = "raises:" + type(e).__name__
+    print(json.dumps(out))
+
+
+def order_independence(run, tmp):
+    """a read must not depend on which other texts were read before it in the same process: the pool is read in K different
+    orders by K fresh interpreters and every text must get the same result in all of them"""
+    import json
+    import subprocess
+    import sys
+    texts = pool_texts(run)
+    pool = os.path.join(tmp, "pool.json")
+    json.dump(texts, open(pool, "w"))
+    runs = []
+    procs = [subprocess.Popen([sys.executable, "-m", "harness.props.c10", "--worker", pool, str(run.seed * 100 + k)], cwd=fw.ROOT,
+                              stdout=subprocess.PIPE, stderr=subprocess.DEVNULL, text=True) for k in range(run.budget(4, 12))]
+    for pr in procs:
+        out, _ = pr.communicate(timeout=600)
+        try:
+            runs.append(json.loads(out.strip().splitlines()[-1]))
+        except Exception:
+            raise fw.InfraError("order-independence worker produced no output")
+    for i, t in enumerate(texts):
+        vals = {r[str(i)] for r in runs}
+        case = {"stream": "order-independence", "text": t if len(t) < 3000 else t[:3000], "orders": len(runs)}
+        run.case(case, nontrivial=True, tags=["order-independence"])
+        if len(vals) > 1:
+            run.fail("read-depends-on-earlier-reads", case, {"results": sorted(vals)})
+
+
 def run(run):
     base = os.path.join(fw.ROOT, ".scratch")
     os.makedirs(base, exist_ok=True)
@@ -242,6 +332,7 @@ def run(run):
         channels(run, tmp)
         decisions(run, tmp)
         histories(run)
+        order_independence(run, tmp)
     finally:
         shutil.rmtree(tmp, ignore_errors=True)
 
@@ -289,6 +380,15 @@ def replay(run, payload):
     if "history" in c:
         histories(run)
         return not run.failures
+    if c.get("stream") == "order-independence":
+        base = os.path.join(fw.ROOT, ".scratch")
+        os.makedirs(base, exist_ok=True)
+        tmp = tempfile.mkdtemp(prefix="c10o-", dir=base)
+        try:
+            order_independence(run, tmp)
+        finally:
+            shutil.rmtree(tmp, ignore_errors=True)
+        return not run.failures
     return True
 
 
@@ -300,3 +400,9 @@ LEVEL_TEXT = ("Partial by nature: Lean 4 theorems about the decision logic lasio
               "newline matrix on the real code, not proved.")
 LEVEL_NOTE = ("partial: codecs, text-mode newline translation and seek/tell are the Python runtime (named hypotheses); autodetection by chardet and "
               "URL input are outside the model; the theorems cover lasio's own logic, the correspondence/oracle covers the glue.")
+
+
+if __name__ == "__main__":
+    import sys
+    if len(sys.argv) >= 4 and sys.argv[1] == "--worker":
+        worker_main(sys.argv[2], int(sys.argv[3]))
